@@ -27,7 +27,14 @@ EPOCH_COLS = {
     'water_level': [0], 'storm': [0, 1], 'zeta_interval': [0, 2], 'zeta_interval_storm': [0, 2],
     'rising_interval': [0], 'recession_interval': [0], 'rising_interval_zeta': [0], 'recession_interval_zeta': [0],
     'rainfall_intensity_staging': [0], 'water_level_staging': [0], 'evapotranspiration_staging': [0],
+    # views (the rain-depth axis of the rise curve is computed by the view storm_total_rain_depth)
+    'storm_total_rain_depth': [0], 'storm_total_rise': [0, 1], 'rising_curve_line_segment': [0],
 }
+# Measured on the unchanged tree (seeds 0-2, every table and view, whole-step shifts from 1 step to years, +05:45 /
+# +05:30 / whole-hour zones, origins at and before 1970): every float cell is BIT-IDENTICAL between the two runs -
+# epochs are integers and every quantity is computed from differences of epochs.  The comparison therefore allows
+# only 1e-13 relative (a few ulps), and counts the cells that are not bit-identical.
+TOL = 1e-13
 
 
 def unshift(dump, d):
@@ -43,19 +50,23 @@ def rows_close(a, b):
         return False
     for x, y in zip(a, b):
         if isinstance(x, float) and isinstance(y, float):
-            if abs(x - y) > 1e-9 * (1 + abs(x)):
+            if abs(x - y) > max(TOL * max(abs(x), abs(y)), 1e-15):      # (1e-15 mm or s: cancellation to zero)
                 return False
         elif x != y:
             return False
     return True
 
 
-def compare_dumps(da, db_, skip=('time_grid',)):
+def compare_dumps(da, db_, skip=('time_grid',), out=None):
     diffs = []
     for t in sorted(set(da) | set(db_)):
         if t in skip:
             continue
         ra, rb = da.get(t, []), db_.get(t, [])
+        if out is not None and len(ra) == len(rb):
+            nb = sum(1 for x, y in zip(ra, rb) for u, v in zip(x, y) if isinstance(u, float) and u != v)
+            if nb:
+                out.count('float-cells-not-bit-identical:' + t, nb)
         if len(ra) != len(rb) or not all(rows_close(x, y) for x, y in zip(ra, rb)):
             first = next(((x, y) for x, y in zip(ra, rb) if not rows_close(x, y)), (None, None))
             diffs.append('%s: %d vs %d rows, first difference %s / %s' % (t, len(ra), len(rb), first[0], first[1]))
@@ -132,11 +143,40 @@ def variants(rng, step):
     return out
 
 
-def check_pairs(items, out, label):
+def epoch0_variant(rng, ds, step):
+    """Origins at and before UNIX time 0 (negative epochs are ordinary timestamps: 1969 and earlier): the first
+    water-level reading exactly at epoch 0 (in UTC, or at local midnight-ish of a zone east / west of UTC so that
+    the epoch of the same wall-clock text is 0), the record running across epoch 0, the record wholly before
+    1970, the LAST rainfall instant exactly at 0.  Whole-step shifts of the base dataset `ds` (UTC), optionally
+    combined with a zone change."""
+    first = ds.wl[0][0]
+    mid = ds.rain[len(ds.rain) // 2][0]
+    if (mid - first) % step:
+        mid = first
+    what = rng.choice(['first-reading-at-0', 'first-reading-at-0', 'across-0', 'across-0', 'before-1970', 'last-step-at-0'])
+    if what == 'first-reading-at-0':
+        shift = -first
+    elif what == 'across-0':
+        shift = -mid
+    elif what == 'last-step-at-0':
+        shift = -ds.rain[-1][0]
+    else:
+        shift = -first - rng.choice([5 * 365, 3, 40 * 365]) * 86400 // step * step - rng.randrange(0, 4) * step
+    z = rng.choice(['UTC', 'UTC', 'Etc/GMT-5', 'Etc/GMT+3', 'Asia/Kolkata'])
+    if z != 'UTC' and what in ('first-reading-at-0', 'last-step-at-0') and rng.random() < 0.7:
+        # same instant 0 written as the wall-clock time of zone z
+        return ('origin %s %s' % (what, z), dict(shift=shift + ZONES[z], tz=z), shift)
+    if z != 'UTC':
+        return ('origin %s %s' % (what, z), dict(shift=shift, tz=z), shift - ZONES[z])
+    return ('origin %s' % what, dict(shift=shift), shift)
+
+
+def check_pairs(items, out, label, only_variant=None):
     cases, meta = [], []
     for item in items:
         kind = item['kind']
         rng = C.rng_for(out.evaluations, PROP, 'variant')
+        rng0 = C.rng_for(out.evaluations, PROP, 'epoch0')
         if kind == 'record':
             rec = item['rec']
             mk = lambda **kw: G.to_dataset(rec, **kw)                       # noqa: E731
@@ -147,27 +187,39 @@ def check_pairs(items, out, label):
             mk = lambda **kw: CC.plan_to_dataset(plan, **kw)[0]             # noqa: E731
             thr_j, grid, step, curves = plan['thr_j'], plan['grid_step'], plan['step'], True
         case = dict(level='CL', item=item)
-        dba, sta, exca = run_pipeline(mk(), thr_s, thr_j, grid, 'a', curves)
+        ds0 = mk()
+        dba, sta, exca = run_pipeline(ds0, thr_s, thr_j, grid, 'a', curves)
         out.evaluations += 1
         out.count(kind + ':step=%d' % step)
         if sta == 'load':
             out.count('load-refused')
             continue
-        base = D.dump(dba)
+        base = D.dump(dba, views=True)
         if sta == 'ok' or sta in ('rise', 'recession', 'set-zeta-grid'):
             model_cases(dba, thr_s, thr_j, cases, meta, case, out)
-        for name, kw, d in variants(rng, step):
-            dbb, stb, excb = run_pipeline(mk(**kw), thr_s, thr_j, grid, 'b', curves)
+        if only_variant is not None:
+            todo = [(only_variant['name'], only_variant['kw'], only_variant['d'])]
+        else:
+            todo = variants(rng, step) + [epoch0_variant(rng0, ds0, step)]
+        for name, kw, d in todo:
+            dsb = mk(**kw)
+            dbb, stb, excb = run_pipeline(dsb, thr_s, thr_j, grid, 'b', curves)
             out.evaluations += 1
             out.count('variant:' + name.split()[0])
-            vcase = dict(level='CL', item=item, variant=name)
+            if name.startswith('origin'):
+                out.count('variant:' + ' '.join(name.split()[:2]))
+                off = ZONES[kw.get('tz', 'UTC')]              # epochs as load will read them
+                tlo, thi = min(dsb.rain[0][0], dsb.wl[0][0]) - off, max(dsb.rain[-1][0], dsb.wl[-1][0]) - off
+                out.count('epochs-of-the-moved-record:' + ('all<0' if thi < 0 else ('across-0' if tlo < 0 else
+                          ('from-0' if tlo == 0 else '>0'))))
+            vcase = dict(level='CL', item=item, variant=dict(name=name, kw=kw, d=d))
             if (sta, type(exca).__name__) != (stb, type(excb).__name__):
                 out.violation('oracle', 'the same data fail differently at another time origin (%s): %s %r vs %s %r'
                               % (name, sta, exca, stb, excb), case=vcase)
                 continue
-            diffs = compare_dumps(base, unshift(D.dump(dbb), d))
+            diffs = compare_dumps(base, unshift(D.dump(dbb, views=True), d), out=out)
             if diffs:
-                out.violation('oracle', 'tables differ after un-shifting the epochs by %d s (%s): %s'
+                out.violation('oracle', 'tables / views differ after un-shifting the epochs by %d s (%s): %s'
                               % (d, name, '; '.join(diffs[:3])), case=vcase)
             elif stb == 'ok':
                 model_cases(dbb, thr_s, thr_j, cases, meta, vcase, out)
@@ -176,8 +228,9 @@ def check_pairs(items, out, label):
     bad, errs, _ = C.run_case_shards(PROP, label, PRE, CASE_TY, CHECK_FN, cases, shard=150)
     out.corr_errors += errs
     for i in bad:
+        v = meta[i].get('variant', 'base origin')
         out.violation('corr', 'epoch-level model classify_stretch <> tables written by classify (%s)'
-                      % meta[i].get('variant', 'base origin'), case=meta[i])
+                      % (v['name'] if isinstance(v, dict) else v), case=meta[i])
     out.count('epoch-model cases', len(cases))
 
 
@@ -195,12 +248,15 @@ def run(ctx, out):
     check_pairs(items, out, 'cl')
     out.rule = ('Each dataset (classification records with increments exactly at threshold x step; planted datasets run up '
                 'to rise/recession) is processed at its own origin and at shifted origins (multiples of the step incl. '
-                'years, and fixed-offset zone changes incl. +05:45 / +05:30); all tables compared after un-shifting. '
+                'years, fixed-offset zone changes incl. +05:45 / +05:30, and origins at / across / before UNIX time 0); '
+                'all tables and views compared after un-shifting, floats within 1e-13 relative. '
                 'Non-trivial: >= 2 classified intervals and identical tables; distinct by (dataset, variant).')
     out.samples = [dict(kind='record', rec=items[0]['rec'])]
-    out.assumptions += ['curve tables compared within 1e-9 relative (they are bit-identical in practice)']
+    out.assumptions += ['tables and views compared within 1e-13 relative (measured: bit-identical on the unchanged tree; '
+                        'cells that are not are counted as float-cells-not-bit-identical)']
 
 
 def replay(case, out):
     C.import_spowtd()
-    check_pairs([case['item']], out, 'replay')
+    v = case.get('variant')
+    check_pairs([case['item']], out, 'replay', only_variant=v if isinstance(v, dict) else None)
